@@ -24,7 +24,7 @@ PROPS = {
     'C14': {'units': ['U-LEXD', 'U-LEXA'], 'assumptions': ['the headline equivalence of the two lexers is not stated as one theorem: each lexer is verified against its own declarative token/span/value spec',
             'alpha lexer: line offsets are proved to be the running sum of (characters + 1) per line, not the true character index (false for CRLF sources: D9); str::lines is modelled only by: sum of (chars+1) over lines <= chars+1, "" has no lines',
             'alpha lexer: keyword and punctuation tables in the spec restate the language tables (no documented list exists in the repository)'], 'trusted': []},
-    'C15': {'units': ['U-LEXD', 'U-PARSE', 'U-HDR', 'U-DIG'], 'assumptions': ['XML dumps (as_xml/print_xml) excluded: format!/Box<dyn Iterator>/&str slicing',
+    'C15': {'units': ['U-LEXD', 'U-PARSE', 'U-HDR', 'U-DIG'], 'assumptions': ['recorded findings D4 (parser recursion) and D17 (XML printer recursion): 14 shapes of deeply nested or long valid modules abort the process with a stack overflow; printed as KNOWN-FINDING on every run, each with its replayed input','XML dumps (as_xml/print_xml) excluded: format!/Box<dyn Iterator>/&str slicing',
             'lex -> parse interface: lex() ENSURES ltok_shape (two final EndOfSource tokens, parallel well-formed packed words) and <= 2^24 tokens whenever it reports no error (U-LEXD); parse() REQUIRES ltok_ok = ltok_shape && tokens < 2^24 (U-PARSE); both units include the same text spec/ltok_ok_spec.rs; the composition is by matching that text, not one Verus run',
             'parse() precondition: 5 + 5 * tokens <= 2^24 (node ids are 24 bits): for inputs above ~3.3 million tokens U24::new would overflow (debug_assert) - documented size regime, see DESIGN.md section 5 (D10)',
             'unbounded stack: recursion depth of the parser is not bounded by any obligation (D4: 5000 nested parentheses overflow the stack)',
